@@ -138,7 +138,8 @@ func ruleL9(p *Prog, r *Report) {
 			}
 			child := c.Call.Value
 			n++
-			grows := top.Name() == "Set" || top.Name() == "Insert"
+			// a map removal can grow a slab: an external collision group (a reference) collapses back to its last element
+			grows := top.Name() == "Set" || top.Name() == "Insert" || (top.Name() == "Remove" && rn == "MapMetaDataSlab")
 			shrinks := top.Name() == "Set" || top.Name() == "Remove"
 			isCheck := func(want string) func(ssa.Instruction) bool {
 				return func(y ssa.Instruction) bool {
